@@ -258,6 +258,25 @@ func e4Nil(e *e4Engine, funcs []*ssa.Function, res *e4Result) {
 						e.open(use, key, shortName(who)+" can return nil without an error; the result is dereferenced here without a nil check")
 					}
 				}
+				// a maybe-nil POINTER boxed into an interface is a non-nil interface holding a nil pointer: a later
+				// `!= nil` test of the interface passes and the first method call through it dereferences nil
+				if _, isPtr := rt.Underlying().(*types.Pointer); isPtr {
+					if refs := v.Referrers(); refs != nil {
+						for _, ref := range *refs {
+							mi, ok := ref.(*ssa.MakeInterface)
+							if !ok {
+								continue
+							}
+							res.nNil++
+							key := e.descr(mi, "nil-box", "result of "+shortName(who)+" converted to "+types.TypeString(mi.Type(), shortQual), ord)
+							if nilGuarded(mi, v) {
+								e.close(mi, key, "D8 compared with nil on a dominating edge", "", false)
+							} else {
+								e.open(mi, key, shortName(who)+" can return a nil pointer; converting it to an interface here yields a non-nil interface around nil (a later nil test passes, the first method call panics)")
+							}
+						}
+					}
+				}
 			}
 		})
 	}
